@@ -51,5 +51,5 @@ def run_seed(pid):
 
 
 pids = sys.argv[1:] or sorted({d.split("-")[0] for d in os.listdir(os.path.join(V, "seeded")) if "-" in d})
-with ThreadPoolExecutor(max_workers=4) as ex:
+with ThreadPoolExecutor(max_workers=int(os.environ.get("SEED_WORKERS", "4"))) as ex:
     list(ex.map(run_seed, pids))
